@@ -240,8 +240,8 @@ pub fn judge_c04(cx: &DeliveryCtx, out: &mut RunOut) {
                 if !ok {
                     out.violate("C04", "outside-window-refused", format!("t−now = {} ns, reference says {}, library says {}; {}", cx.msg.auth.instant_ns - cx.now_ns, r.name(), cx.out.short(), ctx_line(cx)));
                 }
-                if provider_calls(cx) != 0 {
-                    out.violate("C04", "refused-before-key-lookup", format!("provider called for a request outside the window; {}", ctx_line(cx)));
+                if cx.events.iter().any(|e| matches!(e.kind, EvKind::Call { .. } | EvKind::PollReady { .. })) {
+                    out.violate("C04", "refused-before-key-lookup", format!("the key provider was consulted ({} calls) for a request outside the window; {}", provider_calls(cx), ctx_line(cx)));
                 }
             }
         }
@@ -675,6 +675,11 @@ pub fn judge_c14(cx: &DeliveryCtx, out: &mut RunOut) {
         if early && matches!(cx.expected, Verdict::Refuse(r2) if r2 == r) && !cx.body_failed && touched && baseline_ok(cx, out) {
             out.violate("C14", "provider-untouched-by-defective-requests", format!("the request's only fault is a defect at {} (a check that comes before key lookup), yet the provider was consulted ({} calls) and the library says {}; {}", r.name(), calls, cx.out.short(), ctx_line(cx)));
         }
+    }
+    // … and a request that is well-formed but outside the freshness window (the reference's first
+    // failing rule is the window, so every earlier check passes) never reaches it either
+    if matches!(cx.expected, Verdict::Refuse(Rule::Expired | Rule::NotYetValid)) && !cx.body_failed && touched && baseline_ok(cx, out) {
+        out.violate("C14", "provider-untouched-by-defective-requests", format!("the request is outside the freshness window (t−now = {} ns), yet the provider was consulted ({} calls) and the library says {}; {}", cx.msg.auth.instant_ns - cx.now_ns, calls, cx.out.short(), ctx_line(cx)));
     }
     if !finished(cx) {
         return;
